@@ -1505,6 +1505,9 @@ func (r *Rig) oracleViewOn(oc *wire.Client, box string) ([]Entry, int, error) {
 func (r *Rig) Finish(last *Step, idx int) {
 	views := map[string][]Entry{}
 	for _, b := range r.opt.Boxes {
+		if _, known := last.UIDNext[b]; !known {
+			continue // a configuration with fewer mailboxes than the plan: the model says nothing about this one
+		}
 		v, uidnext, err := r.OracleView(b)
 		if err != nil {
 			r.rep.Drift = r.drift(idx, "oracle", "%v", err)
